@@ -381,6 +381,12 @@ func wrapWriter(kind string, s *simnet.Sink) io.Writer {
 		return iohelp.NewErrorWriter(s)
 	case "fat":
 		return simnet.FatSink{Sink: s}
+	case "seeker":
+		// a file: io.WriteSeeker whose writes land where Seek put the offset
+		return &simnet.FileSink{Sink: s}
+	case "append-seeker":
+		// a file opened with O_APPEND: Seek succeeds, writes go to the end all the same
+		return &simnet.FileSink{Sink: s, Append: true}
 	}
 	return struct{ io.Writer }{s}
 }
